@@ -257,41 +257,62 @@ Proof.
 Qed.
 
 (* ---- delete child ---- *)
+(* ---- what is left under the parent key after a child delete (F22) ---- *)
+Lemma store_back_same p m chs :
+  plk p (store_back p m chs) = match m with [] => None | _ :: _ => Some (Some m) end.
+Proof.
+  destruct m as [|x r]; cbn [store_back]; [apply lookup_remove_eq; exact E|apply lookup_insert_eq; exact E].
+Qed.
+
+Lemma store_back_other p m chs p' : p' <> p -> plk p' (store_back p m chs) = plk p' chs.
+Proof.
+  intros Hn. destruct m as [|x r]; cbn [store_back]; [apply lookup_remove_neq|apply lookup_insert_neq]; (exact E || exact Hn).
+Qed.
+
+Lemma store_back_entry p m chs c ch :
+  (exists m1, plk p (store_back p m chs) = Some (Some m1) /\ mlk c m1 = Some ch) <-> mlk c m = Some ch.
+Proof.
+  rewrite store_back_same. destruct m as [|x r].
+  - split; [intros [m1 [H _]]; discriminate|intros H; discriminate].
+  - split; [intros [m1 [H1 H2]]; inversion H1; subst; exact H2|intros H; eexists; split; [reflexivity|exact H]].
+Qed.
+
 Lemma del_child_core s uc uch p c ch m cl' :
   Inv s -> Bound s uc uch ->
   plk p (children s) = Some (Some m) -> mlk c m = Some ch ->
   (cl' = closedl s \/ cl' = ch :: closedl s) ->
-  let s' := mkcm (pins p (Some (mrm c m)) (children s)) (mrm c (pbc s)) cl' in
+  let s' := mkcm (store_back p (mrm c m) (children s)) (mrm c (pbc s)) cl' in
   Inv s' /\ Bound s' uc uch.
 Proof.
   intros I B Lp Lc Hcl s'.
   assert (Hthe : entry s p c ch) by (exists m; split; assumption).
   assert (Hnew : forall p1 c1 chx, entry s' p1 c1 chx -> entry s p1 c1 chx /\ c1 <> c).
-  { intros p1 c1 chx [m1 [H1 H2]]. cbn [children s'] in H1. destruct (N.eq_dec p1 p) as [->|Hn].
-    - rewrite lookup_insert_eq in H1 by exact E. inversion H1; subst m1.
-      destruct (N.eq_dec c1 c) as [->|Hnc]; [rewrite lookup_remove_eq in H2 by exact E; discriminate|].
-      rewrite lookup_remove_neq in H2 by (exact E || exact Hnc). split; [exists m; split; assumption|exact Hnc].
-    - rewrite lookup_insert_neq in H1 by (exact E || exact Hn).
+  { intros p1 c1 chx Hent. destruct (N.eq_dec p1 p) as [->|Hn].
+    - apply (store_back_entry p (mrm c m) (children s) c1 chx) in Hent.
+      destruct (N.eq_dec c1 c) as [->|Hnc]; [rewrite lookup_remove_eq in Hent by exact E; discriminate|].
+      rewrite lookup_remove_neq in Hent by (exact E || exact Hnc). split; [exists m; split; assumption|exact Hnc].
+    - destruct Hent as [m1 [H1 H2]]. cbn [children s'] in H1. rewrite store_back_other in H1 by exact Hn.
       assert (entry s p1 c1 chx) as O by (exists m1; split; assumption). split; [exact O|].
       intros ->. apply Hn. eapply entry_parent_unique; [exact I|exact O|exact Hthe]. }
   assert (Hold : forall p1 c1 chx, entry s p1 c1 chx -> c1 <> c -> entry s' p1 c1 chx).
   { intros p1 c1 chx [m1 [H1 H2]] Hnc. unfold entry. cbn [children s']. destruct (N.eq_dec p1 p) as [->|Hn].
-    - exists (mrm c m). rewrite lookup_insert_eq by exact E. split; [reflexivity|].
+    - apply (store_back_entry p (mrm c m) (children s) c1 chx).
       rewrite lookup_remove_neq by (exact E || exact Hnc). rewrite Lp in H1. inversion H1; subst. exact H2.
-    - exists m1. rewrite lookup_insert_neq by (exact E || exact Hn). split; assumption. }
+    - exists m1. rewrite store_back_other by exact Hn. split; assumption. }
   assert (Hnotcl : ~ In ch (closedl s)) by (eapply (inv_open s I); exact Hthe).
   split; constructor.
   - intros p1 m1 H1. cbn [children s'] in H1. destruct (N.eq_dec p1 p) as [->|Hn].
-    + rewrite lookup_insert_eq in H1 by exact E. inversion H1; subst. apply nodup_remove. eapply (inv_nd s I); exact Lp.
-    + rewrite lookup_insert_neq in H1 by (exact E || exact Hn). eapply (inv_nd s I); exact H1.
+    + rewrite store_back_same in H1. destruct (mrm c m) as [|x r] eqn:Em; [discriminate|]. inversion H1; subst m1.
+      rewrite <- Em. apply nodup_remove. eapply (inv_nd s I); exact Lp.
+    + rewrite store_back_other in H1 by exact Hn. eapply (inv_nd s I); exact H1.
   - intros c0 p0. cbn [pbc s']. destruct (N.eq_dec c0 c) as [->|Hnc].
     + rewrite lookup_remove_eq by exact E. split; [discriminate|]. intros [chx Hx]. destruct (Hnew _ _ _ Hx) as [_ X]. congruence.
     + rewrite lookup_remove_neq by (exact E || exact Hnc). rewrite (inv_cons s I). split.
       * intros [chx Hx]. exists chx. apply Hold; assumption.
       * intros [chx Hx]. exists chx. apply (Hnew _ _ _ Hx).
   - intros p1 H1. cbn [children s'] in H1. destruct (N.eq_dec p1 p) as [->|Hn].
-    + rewrite lookup_insert_eq in H1 by exact E. discriminate.
-    + rewrite lookup_insert_neq in H1 by (exact E || exact Hn). eapply (inv_nonil s I); exact H1.
+    + rewrite store_back_same in H1. destruct (mrm c m); discriminate.
+    + rewrite store_back_other in H1 by exact Hn. eapply (inv_nonil s I); exact H1.
   - intros p1 c1 p2 c2 chx H1 H2. eapply (inv_inj s I); [apply (Hnew _ _ _ H1)|apply (Hnew _ _ _ H2)].
   - intros p1 c1 chx H1. cbn [closedl s']. destruct (Hnew _ _ _ H1) as [O Hnc].
     destruct Hcl as [->| ->]; [eapply (inv_open s I); exact O|].
@@ -435,6 +456,74 @@ Proof.
   destruct (IH s1 _ _ I1 B1 Fr) as [H1 [H2 H3]].
   destruct (crun s1 r) as [s2 xs]. cbn [fst snd] in *.
   split; [constructor; assumption|split; [cbn [length]; lia|exact H3]].
+Qed.
+
+(* ---- no empty map is ever kept under a parent key (F22) ---- *)
+Definition NoEmpty (s : cm) : Prop := forall p, plk p (children s) <> Some (Some []).
+
+Lemma noempty_init : NoEmpty cm_init.
+Proof. intros p. cbn. discriminate. Qed.
+
+Lemma noempty_store_back s p m pb cl : NoEmpty s -> NoEmpty (mkcm (store_back p m (children s)) pb cl).
+Proof.
+  intros H q. cbn [children]. destruct (N.eq_dec q p) as [->|Hn].
+  - rewrite store_back_same. destruct m; [discriminate|]. intros X; inversion X.
+  - rewrite store_back_other by exact Hn. apply H.
+Qed.
+
+Lemma noempty_prm s p pb cl : NoEmpty s -> NoEmpty (mkcm (prm p (children s)) pb cl).
+Proof.
+  intros H q. cbn [children]. destruct (N.eq_dec q p) as [->|Hn].
+  - rewrite lookup_remove_eq by exact E. discriminate.
+  - rewrite lookup_remove_neq by (exact E || exact Hn). apply H.
+Qed.
+
+Lemma cstep_noempty s o : NoEmpty s -> NoEmpty (fst (cstep s o)).
+Proof.
+  intros H. destruct o as [p c ch|c|c|p|p]; cbn [cstep].
+  - unfold do_add. destruct (p =? 0)%N; [exact H|]. destruct (c =? 0)%N; [exact H|]. destruct (ch =? 0)%N; [exact H|].
+    destruct (plk p (children s)) as [[m|]|] eqn:L.
+    + rewrite L. cbn [fst]. intros q. cbn [children]. destruct (N.eq_dec q p) as [->|Hn].
+      * rewrite lookup_insert_eq by exact E. unfold insert. discriminate.
+      * rewrite lookup_insert_neq by (exact E || exact Hn). apply H.
+    + rewrite L. cbn [fst]. exact H.
+    + rewrite lookup_insert_eq by exact E. cbn [fst]. intros q. cbn [children]. destruct (N.eq_dec q p) as [->|Hn].
+      * rewrite lookup_insert_eq by exact E. unfold insert. discriminate.
+      * rewrite !lookup_insert_neq by (exact E || exact Hn). apply H.
+  - unfold do_del_child. destruct (c =? 0)%N; [exact H|]. destruct (mlk c (pbc s)) as [p|]; [|exact H].
+    destruct (plk p (children s)) as [[m|]|]; try (apply noempty_prm; exact H).
+    destruct (mlk c m); apply noempty_store_back; exact H.
+  - unfold do_del_child. destruct (c =? 0)%N; [exact H|]. destruct (mlk c (pbc s)) as [p|]; [|exact H].
+    destruct (plk p (children s)) as [[m|]|]; try (apply noempty_prm; exact H).
+    destruct (mlk c m) as [ch|]; [|apply noempty_store_back; exact H].
+    destruct (close_chan ch (closedl s)); [apply noempty_store_back; exact H|exact H].
+  - unfold do_del_parent. destruct (p =? 0)%N; [exact H|]. destruct (plk p (children s)) as [mo|]; [|exact H].
+    destruct (del_loop false _ (pbc s) (closedl s)) as [[pb cl]|]; [apply noempty_prm; exact H|exact H].
+  - unfold do_del_parent. destruct (p =? 0)%N; [exact H|]. destruct (plk p (children s)) as [mo|]; [|exact H].
+    destruct (del_loop true _ (pbc s) (closedl s)) as [[pb cl]|]; [apply noempty_prm; exact H|exact H].
+Qed.
+
+Lemma crun_noempty ops : forall s, NoEmpty s -> NoEmpty (fst (crun s ops)).
+Proof.
+  induction ops as [|o r IH]; intros s H; [exact H|].
+  cbn [crun]. pose proof (cstep_noempty s o H) as H1. destruct (cstep s o) as [s1 x]. cbn [fst] in H1.
+  destruct (is_panic x); [exact H1|]. specialize (IH s1 H1). destruct (crun s1 r) as [s2 xs]. exact IH.
+Qed.
+
+(* a booking is known to the store exactly as long as one of its connections is: ChildrenByParent has a
+   key iff some child maps to it (for every sequence, no freshness needed for the "no empty map" half) *)
+Lemma no_empty_parent_entries ops :
+  fresh_adds ops ->
+  forall p, plk p (children (fst (crun cm_init ops))) <> None <->
+            exists c, mlk c (pbc (fst (crun cm_init ops))) = Some p.
+Proof.
+  intros F p. destruct (crun_inv ops cm_init [] [] inv_init bound_init F) as [_ [_ I]].
+  pose proof (crun_noempty ops cm_init noempty_init p) as NE.
+  set (s := fst (crun cm_init ops)) in *. split.
+  - intros Hk. destruct (plk p (children s)) as [[m|]|] eqn:L; [| exfalso; eapply (inv_nonil s I); exact L | congruence].
+    destruct m as [|[c ch] r]; [exfalso; apply NE; (exact L || reflexivity)|]. exists c. apply (inv_cons s I). exists ch, ((c, ch) :: r).
+    split; [exact L|]. cbn. rewrite N.eqb_refl. reflexivity.
+  - intros [c Hc]. apply (inv_cons s I) in Hc. destruct Hc as [ch [m [L _]]]. congruence.
 Qed.
 
 Lemma chanmap_total ops :
